@@ -104,6 +104,9 @@ class AcEnv:
             if timers is not None:
                 h.setattr(self.ac, "_ac_timer_status", timers)
 
+    def snapshot(self):
+        self.stored0 = _stored(self.h, self)
+
     def both(self):
         return union_handle(self.h, self.w, self.subs, self.subs_state)
 
@@ -339,7 +342,16 @@ def _zone_updated(h, g):
 # ---- commands ----------------------------------------------------------------------------------
 
 
+def _stored(h, E):
+    return (h.attr(E.ac, "_ac_status"), h.attr(E.ac, "_ac_timer_status"), h.attr(E.ac, "_ac_error_info"))
+
+
 def _one_frame(h, E, r):
+    st = getattr(E, "stored0", None)
+    if st is not None:
+        now = _stored(h, E)
+        h.oblige("a command does not touch the stored console reports (only frames from the console do)",
+                 And(now[0] is st[0], now[1] is st[1], now[2] is st[2]))
     h.oblige("the call succeeds", r.ok)
     h.oblige("exactly one frame is submitted", len(E.sock.sent) == 1)
     if len(E.sock.sent) != 1:
@@ -384,6 +396,7 @@ def _set_power(h, g):
     G = GEN[g]
     E = AcEnv(h, g)
     pc = h.enum("power_control", API + ":AcPowerControl")
+    E.snapshot()
     r = h.method(E.ac, "set_power", pc)
     code = h.enum_code(pc, API + ":AcPowerControl", POWER_CTRL_CODE)
     if g == 4 and h.branch(code >= 4):
@@ -419,6 +432,7 @@ def _set_mode(h, g):
     E = AcEnv(h, g)
     mode = h.enum("mode", API + ":AcMode")
     power_on = h.bool("power_on")
+    E.snapshot()
     r = h.method(E.ac, "set_mode", mode, power_on=power_on)
     code = h.enum_code(mode, API + ":AcMode", MODE_CODE)
     sup = h.attr(E.ability, "ac_mode_support")
@@ -452,6 +466,7 @@ def _set_fan(h, g):
     G = GEN[g]
     E = AcEnv(h, g)
     fs = h.enum("fan_speed", API + ":AcFanSpeed")
+    E.snapshot()
     r = h.method(E.ac, "set_fan_speed", fs)
     code = h.enum_code(fs, API + ":AcFanSpeed", FAN_CODE)
     sup = h.attr(E.ability, "fan_speed_support")
@@ -490,6 +505,7 @@ def _set_target(h, g):
     lo = h.prop(E.ac, "min_target_temperature").value
     hi = h.prop(E.ac, "max_target_temperature").value
     h.assume(lo <= hi, "the console's limits are ordered (min <= max)")
+    E.snapshot()
     r = h.method(E.ac, "set_target_temperature", t)
     res = _one_frame(h, E, r)
     if res is None:
@@ -535,6 +551,7 @@ def _timers(h, g):
     which = h.choice("timer_type", ["ON_TIMER", "OFF_TIMER"])
     op = h.choice("operation", ["set-time", "clear", "set-duration", "bad-type"])
     tt = h.member(API + ":AcTimerType", which)
+    E.snapshot()
     if op == "set-time":
         hour, minute = h.int("hour", 0, 23), h.int("minute", 0, 59)
         r = h.method(E.ac, "set_quick_timer", tt, h.time(hour, minute))
@@ -549,6 +566,9 @@ def _timers(h, g):
                  And(r.raised("ValueError"), len(E.sock.sent) == 0))
         return
     h.oblige("the call succeeds", r.ok)
+    now = _stored(h, E)
+    h.oblige("a timer command does not touch the stored console reports (the other timer stays 'as last reported' for later calls too)",
+             And(now[0] is E.stored0[0], now[1] is E.stored0[1], now[2] is E.stored0[2]))
     h.oblige("exactly one frame is submitted", len(E.sock.sent) == 1)
     if len(E.sock.sent) != 1:
         return
